@@ -1,4 +1,5 @@
 import RosuModel.Model.ManiaSkill
+import RosuModel.Model.CatchSkill
 import RosuModel.Model.StarsWire
 
 /-
@@ -12,6 +13,9 @@ as rustc does — not through `Float.ofScientific`, which rounds twice.
 
   MSKILL <clock_rate> <total_columns> <take|-> <start:end:column;…>
      → O<object strains> P<exported peaks> D<difficulty value> S<stars> X<bit-level view agrees>
+  CSKILL <clock_rate> <cs (f32)> <take|-> <x:x_offset:start_time;…>   (x, x_offset: f32 patterns)
+     → W<half catcher width (f32)> H<hyper-dash flag per palpable object> G<dist_to_hyper_dash per
+       object (f32)> O<object strains> P<exported peaks> D<difficulty value> S<stars> X<…>
 -/
 namespace Rosu.SkillWire
 open Rosu.Wire Rosu.SV Rosu.Skill Rosu.SkillOps Rosu.StrainsWire
@@ -154,5 +158,39 @@ def handleMSKILL (rate cols take objs : String) : String :=
           (ManiaSkill.createDifficultyObjects rate (os.take (takeOf take))) peaks
         && bitsOf (StarsWire.maniaStars peaks) == bitsOf stars
       s!"O{showFs st.objectStrains} P{showHexList peaks} D{StarsWire.showZ dv} S{StarsWire.showZ stars} X{if x then 1 else 0}"
+
+def s32 (s : String) : Float32 := Float32.ofBits (UInt32.ofNat (hexToNat s))
+
+def hex8 (n : Nat) : String :=
+  String.ofList ((List.range 8).reverse.map fun i => hexChar ((n / 16 ^ i) % 16))
+
+def show32 (x : Float32) : String := if x.isNaN then "nan" else hex8 x.toBits.toNat
+
+def parsePalpable (s : String) : Option (CatchSkill.Palpable Float Float32) :=
+  match s.splitOn ":" with
+  | [a, b, c] => some (CatchSkill.Palpable.new (s32 a) (s32 b) (fOf (hexToNat c)))
+  | _ => none
+
+/-- `CSKILL <clock_rate> <cs> <take|-> <objects>` -/
+def handleCSKILL (rate cs take objs : String) : String :=
+  let parsed := (splitList objs ";").map parsePalpable
+  if parsed.any Option.isNone then "bad-cskill"
+  else
+    let os := parsed.filterMap id
+    let rate := fOf (hexToNat rate)
+    let cs := s32 cs
+    let A := secArith 750.0
+    let C := ieeeCasts
+    showRes (CatchSkill.calculate C A driverFuel rate cs (takeOf take) os) fun (palpable, st) =>
+      let hcw := CatchSkill.halfCatcherWidth C cs
+      let peaks := (exportPeaksV st).map bitsOf
+      let dv := CatchSkill.difficultyValueOf st
+      let stars := CatchSkill.starsOf st
+      let x := bitViewAgrees A (CatchSkill.fns C hcw rate) CatchSkill.St.new
+          (CatchSkill.createDifficultyObjects rate hcw (palpable.take (takeOf take))) peaks
+        && bitsOf (StarsWire.catchStars peaks) == bitsOf stars
+      let h := String.ofList (palpable.map fun p => if p.hyperDash then '1' else '0')
+      let g := joinWith ";" (palpable.map fun p => show32 p.distToHyperDash)
+      s!"W{show32 hcw} H{if palpable.isEmpty then "-" else h} G{if palpable.isEmpty then "-" else g} O{showFs st.objectStrains} P{showHexList peaks} D{StarsWire.showZ dv} S{StarsWire.showZ stars} X{if x then 1 else 0}"
 
 end Rosu.SkillWire
